@@ -1436,6 +1436,31 @@ func (e *Exec) calleeKey(cc *ssa.CallCommon, fnv Val) string {
 	return "?"
 }
 
+// chanSendAsserts: "atcall chansend requires (v T) :: E" clauses of the contract under verification, checked at
+// every channel send of a value of that type.
+func (e *Exec) chanSendAsserts(f *frame, in ssa.Instruction, v Val, h *Heap, g string) {
+	if e.topSpec == nil || e.specDepth != 0 || e.pure != 0 || e.quiet != 0 {
+		return
+	}
+	for _, c := range e.topSpec.Clauses {
+		if c.Kind != KAssertCall || c.Callee != "chansend" {
+			continue
+		}
+		sf := e.eng.ld.specFunc(e.topSpec, c)
+		full := append(append([]Val{}, e.topFrame.params...), v)
+		if len(sf.Params) != len(full) || !types.Identical(sf.Params[len(full)-1].Type(), v.Typ) {
+			continue // a send of another type
+		}
+		e.clauseHit[c] = true
+		if !e.wantClause(c) {
+			continue
+		}
+		e.callOrd["chansend:"+c.Label]++
+		t := e.evalSpec(sf, full, h, e.preHeap)
+		e.addObligation(f, "atcall", c, fmt.Sprintf("chansend.%s@%s%d", labelOr(c, "atcall"), f.path, e.callOrd["chansend:"+c.Label]), g, t, in.Pos())
+	}
+}
+
 // atCallAsserts: call-site assertions the contract under verification attaches to calls of a callee.
 func (e *Exec) atCallAsserts(f *frame, in ssa.Instruction, cc *ssa.CallCommon, fnv Val, args []Val, h *Heap, g string) {
 	key := ""
